@@ -183,3 +183,7 @@ package actionlint
 //@ func (*RulePyflakes).runPyflakes
 //@   props C20
 //@   at_call (*externalCommand).run: stdin == sanitized(src0)
+//@ func (*RuleShellcheck).runShellcheck
+//@   props C20
+//@   at_call (*externalCommand).run: stdin == setup + ("\n" + (sanitized(src0) + "\n"))
+//@   at_call (*externalCommand).run: (sh == "bash" ==> setup == "set -eo pipefail") && (sh != "bash" ==> setup == "set -e")
